@@ -975,13 +975,17 @@ def check_pdb_conect_lookup(ctx, rid):
             tables.add(n.func.value.id)
     ends = []
     for n in f.own_nodes():
-        if isinstance(n, ast.Call) and isinstance(n.func, ast.Attribute) and n.func.attr == "append" and isinstance(n.func.value, ast.Name) and n.func.value.id == "bonds" and n.args and isinstance(n.args[0], (ast.List, ast.Tuple)) and len(n.args[0].elts) >= 2:
-            ends.append(n)
+        if isinstance(n, ast.Call) and isinstance(n.func, ast.Attribute) and n.func.attr == "append" and isinstance(n.func.value, ast.Name) and n.func.value.id == "bonds" and n.args:
+            rec = n.args[0]
+            if isinstance(rec, ast.Name):
+                rec = deref(f, rec)  # the record may be built in a local first
+            if isinstance(rec, (ast.List, ast.Tuple)) and len(rec.elts) >= 2:
+                ends.append((n, rec))
     if not ends:
         raise AnalysisError("pdb.load_one: the statement that stores a bond was not found")
-    for n in ends:
+    for n, rec in ends:
         bad = []
-        for e in n.args[0].elts[:2]:
+        for e in rec.elts[:2]:
             looked_up = (isinstance(e, ast.Subscript) and isinstance(e.value, ast.Name) and e.value.id in tables) or (isinstance(e, ast.Call) and isinstance(e.func, ast.Attribute) and e.func.attr in ("index", "get") and isinstance(e.func.value, ast.Name) and e.func.value.id in tables)
             if not looked_up:
                 bad.append(src_of(e))
